@@ -3,6 +3,8 @@
 package protojson
 
 import (
+	"math/bits"
+
 	"google.golang.org/protobuf/internal/zzverif/nd"
 )
 
@@ -53,9 +55,20 @@ func refDuration(s string) (secs int64, nanos int32, verdict int) {
 	if intDigits > 1 && b[0] == '0' {
 		return 0, 0, -1
 	}
+	// an integer part that does not fit in int64 cannot be represented: must be rejected
+	var us uint64
+	fits := true
 	for k := 0; k < intDigits; k++ {
-		secs = secs*10 + int64(b[k]-'0')
+		hi, lo := bits.Mul64(us, 10)
+		sum, c := bits.Add64(lo, uint64(b[k]-'0'), 0)
+		f := hi == 0 && c == 0
+		fits = fits && f
+		us = sum
 	}
+	if !fits || us > 1<<63-1 {
+		return 0, 0, 0
+	}
+	secs = int64(us)
 	var ns int32
 	for k := 0; k < 9; k++ {
 		ns *= 10
@@ -100,14 +113,19 @@ func H_C23_duration() {
 	}
 }
 
-// H_C23_duration_long: long literals: up to 13 integer digits (crossing the
-// maxSecondsInDuration = 315576000000 boundary, 12 digits) followed by up to 10 fractional digits.
+// H_C23_duration_long: long literals: 0..13 and 18..20 integer digits (crossing the
+// maxSecondsInDuration = 315576000000 boundary at 12 digits and the int64/uint64 limits at 19/20
+// digits) followed by no, 0, 1, 9 or 10 fractional digits.
 // Shapes are case-split, digits are symbolic.
 //
-//verif:props=C23 bounds=sign?+intdigits<=13+fracdigits<=10 solver=cvc5-int timeout=20000
+//verif:props=C23 bounds=sign?+intdigits-in{0..13,18,19,20}+fracdigits-in{none,0,1,9,10} solver=cvc5-int timeout=20000
 func H_C23_duration_long() {
-	ni := nd.Int(0, 13)
-	nf := nd.Int(-1, 10) // -1: no dot
+	ni := nd.Int(0, 16)
+	if ni > 13 {
+		ni += 4 // 18, 19, 20: around the int64 and uint64 limits
+	}
+	nfSel := nd.Int(0, 4)
+	nf := []int{-1, 0, 1, 9, 10}[nfSel] // -1: no dot
 	sign := nd.Int(0, 2)
 	var b []byte
 	if sign == 1 {
